@@ -72,6 +72,28 @@ type extractor struct {
 	initParent, initList  string
 	fnName                string
 	depth                 int
+	// argOf: parameter of the expanded helper -> the argument expression of its call (and the type information it
+	// is written under): an attribute number handed in as a parameter is the constant named at the call
+	argOf   map[types.Object]ast.Expr
+	argInfo *types.Info
+	argUp   *extractor
+}
+
+// constOfExpr resolves an expression to the constant object it names, through parameters of expanded helpers.
+func (x *extractor) constOfExpr(info *types.Info, e ast.Expr, depth int) *types.Const {
+	if depth > 4 {
+		return nil
+	}
+	o := core.ObjOf(info, e)
+	if k, ok := o.(*types.Const); ok {
+		return k
+	}
+	if o != nil && x.argOf != nil {
+		if a, ok := x.argOf[o]; ok && x.argUp != nil {
+			return x.argUp.constOfExpr(x.argInfo, a, depth+1)
+		}
+	}
+	return nil
 }
 
 func newExtractor(p *core.Program, fn *ssa.Function) *extractor {
@@ -666,6 +688,24 @@ func (x *extractor) extract() ([]attrRow, []string) {
 					x2.syntax, x2.info = hd, x.p.InfoOf(hf.Pkg())
 					x2.initCases, x2.initGuards, x2.initParent, x2.initList = c.cases, c.guards, c.parent, c.list
 					x2.fnName, x2.depth = fnName, x.depth+1
+					// bind the helper's parameters to the argument expressions of this call
+					x2.argOf, x2.argInfo, x2.argUp = map[types.Object]ast.Expr{}, x.info, x
+					if hd.Type.Params != nil && y.Ellipsis == 0 {
+						k := 0
+						for _, f := range hd.Type.Params.List {
+							for _, id := range f.Names {
+								if k < len(y.Args) {
+									if po := x2.info.Defs[id]; po != nil {
+										x2.argOf[po] = y.Args[k]
+									}
+								}
+								k++
+							}
+							if len(f.Names) == 0 {
+								k++
+							}
+						}
+					}
 					hrows, hprobs := x2.extract()
 					rows = append(rows, hrows...)
 					problems = append(problems, hprobs...)
@@ -741,7 +781,7 @@ func (x *extractor) extract() ([]attrRow, []string) {
 					}
 					switch kv.Key.(*ast.Ident).Name {
 					case "Type":
-						if o, ok := core.ObjOf(x.info, kv.Value).(*types.Const); ok {
+						if o := x.constOfExpr(x.info, kv.Value, 0); o != nil {
 							row.Const, row.constObj = o.Name(), o
 						} else {
 							row.Const = "?" + types.ExprString(kv.Value)
